@@ -95,7 +95,7 @@ PROPS = {
 }
 
 ASSUMPTIONS = [
-    "universe A of TxPool.tla: 18 transaction templates over 6 chain coins, 1 message, 2 contracts, 1 blob; pool limits "
+    "universe A of TxPool.tla: 19 transaction templates over 6 chain coins, 1 message, 2 contracts, 1 blob; pool limits "
     "max_txs=3 (spent-inputs LRU capacity 4), max_gas=8, max_bytes=9 units, chain limit 3, pending pool 67%",
     "environment: imported blocks are valid on the chain view and exclude transactions preconfirmed for a later height; "
     "success/failure preconfirmations for a future height concern transactions that are not on the chain and whose "
@@ -176,12 +176,12 @@ def run_family(rep, tier, args, prop, selftest=None, extra=None):
     def job_b2():
         r, walks = sim_walks("Sim_TxPool.cfg" if quick else "Sim_TxPool_thorough.cfg", n_sim, depth, wd)
         tp = run_walks(hbin, uni, walks, wd, "b2")
-        v = vlib.validate_trace(TRACE, cfg, tp, name=prop + "-b2", timeout=3000)
+        v = validate(cfg, tp, prop + "-b2")
         return r, walks, tp, v
 
     def job_b3():
         tp = run_random(hbin, uni, n_rnd, len_rnd, wd, "b3")
-        v = vlib.validate_trace(TRACE, cfg, tp, name=prop + "-b3", timeout=3000)
+        v = validate(cfg, tp, prop + "-b3")
         return tp, v
 
     with ThreadPoolExecutor(max_workers=3) as ex:
@@ -252,3 +252,33 @@ def corrupt_and_judge(rep, wd, cfg, traces, pick, mutate, expect_names, label):
                     return True
     rep.extra.setdefault("selftest", []).append("%s: no suitable event in this run" % label)
     return False
+
+
+def validate(cfg, tp, name, timeout=3000):
+    """vlib.validate_trace (strict first, the first few divergent walks re-judged alone in observe mode); when walks
+    diverged and no violation was found among the re-judged ones, every walk of the trace is additionally judged in
+    observe mode (one TLC run over the whole file), so that divergences can never mask a violation further on."""
+    v = vlib.validate_trace(TRACE, cfg, tp, name=name, timeout=timeout)
+    if v.divergent and not v.violations:
+        remaining = vlib.split_trace(tp)
+        wd = vlib.workdir("trace-" + name + "-all")
+        rounds = 0
+        while remaining and rounds < 3:
+            rounds += 1
+            p = os.path.join(wd, "observe-%d.ndjson" % rounds)
+            open(p, "w").write("\n".join("\n".join(w) for w in remaining) + "\n")
+            kind, r, at = vlib._validate_file(TRACE, cfg, p, sum(len(w) for w in remaining), name + "-observe-all",
+                                              False, timeout)
+            if kind == "accepted":
+                break
+            if kind != "violated":
+                raise vlib.ToolError("observe-mode rejected a trace at event %s" % at)
+            idx = vlib._violation_walk_index(r, remaining)
+            ls = re.findall(r"/\\ l = (\d+)", r.out)
+            off = sum(len(w) for w in remaining[:idx])
+            bad = remaining[idx]
+            if ls:
+                bad = bad[:max(2, int(ls[-1]) - 1 - off)]
+            v.violations.append((bad, r.violated, ""))
+            remaining = remaining[idx + 1:]
+    return v
